@@ -253,6 +253,16 @@ Inductive ownership :=
 Definition eq_owned_variable (neq : Q -> Q -> bool) (a b : variable * ownership) : bool :=
   eq_variable neq (fst a) (fst b).
 
+(** * Resolved state of an import source
+
+    importsource.cpp: ImportSource::doEquals compares the id (Entity::doEquals) and the url; it never reads mModel
+    (set by ImportSource::setModel / Importer::resolveImports, shared by clones).  The trees therefore carry url and
+    id only; the tag below only exists to state that fact (Properties_C10: C10_import_resolution_irrelevant) — the
+    correspondence run draws the resolved state of every import source at random (gen/equals_gen.py: emit). *)
+Inductive resolution := Unresolved | ResolvedTo (model_object : nat).
+
+Definition eq_resolved_isrc (a b : isrc * resolution) : bool := eq_isrc (fst a) (fst b).
+
 (** * Instances of the comparison of doubles *)
 
 (** |a - b| <= 2^-52 = DBL_EPSILON: the first test of areNearlyEqual.  On values that are identical or
